@@ -106,6 +106,16 @@ func (q *MultiOpQueryer) fetch(inputs []*requests.Request) ([]requests.Response,
 		return nil, fmt.Errorf("expected %d responses, got %d", len(inputs), len(results))
 	}
 
+	// an answer has to carry data and/or errors
+	var raw []map[string]json.RawMessage
+	if err := json.Unmarshal(response, &raw); err == nil {
+		for i, r := range raw {
+			if _, ok := r["data"]; !ok && len(results[i].Errors) == 0 {
+				return nil, fmt.Errorf("response %d carries neither data nor errors", i)
+			}
+		}
+	}
+
 	// return the results
 	return results, nil
 }
